@@ -232,8 +232,14 @@ func c15Lists(c *core.Ctx, r *rng.R) *core.Result {
 				d.AddParagraph("plain")
 				d.AddFootnote("t", "n")
 				d.AddHeader(document.HeaderFooterTypeDefault, "h")
+				// a bystander document created and filled in between must not disturb this document's lists
+				other := document.New()
+				if r.Bool() {
+					other.AddNumberedList("bystander", r.Range(0, 3), document.ListTypeLowerRoman)
+					other.AddBulletList("bystander", 0, document.BulletTypeArrow)
+				}
 			})
-			log = append(log, "OtherContent")
+			log = append(log, "OtherContent+bystander-document")
 		default: // save / open cycle
 			b, err := d.ToBytes()
 			if err != nil {
